@@ -9,6 +9,7 @@ from __future__ import annotations
 
 import builtins
 import math
+import operator
 import os
 import sys
 import time
@@ -217,6 +218,9 @@ class Engine:
                 if i == j:
                     continue
                 ax.append(z3.Implies(xi <= xj, ri <= rj))
+                # a rounded value is a fixed point of round: compare arguments with results as well
+                ax.append(z3.Implies(xi <= rj, ri <= rj))
+                ax.append(z3.Implies(xi >= rj, ri >= rj))
                 if i < j:
                     ax.append(z3.Implies(xi <= -xj, ri <= -rj))
                     ax.append(z3.Implies(-xi <= xj, -ri <= rj))
@@ -308,6 +312,38 @@ def _real(a):
     if a.sort().kind() == z3.Z3_INT_SORT:
         return z3.RealVal(a.as_long()) if z3.is_int_value(a) else z3.ToReal(a)
     return a
+
+
+def _pyval(t):
+    """constant term -> the python number the library would hold (int for Int-sorted, float for Real-sorted)"""
+    t = z3.simplify(t)
+    if z3.is_int_value(t):
+        return t.as_long()
+    if z3.is_rational_value(t):
+        return float(Fraction(t.numerator_as_long(), t.denominator_as_long()))
+    if z3.is_algebraic_value(t):
+        a = t.approx(30)
+        return float(Fraction(a.numerator_as_long(), a.denominator_as_long()))
+    return None
+
+
+def _from_py(v):
+    if isinstance(v, bool):
+        return z3.IntVal(int(v))
+    if isinstance(v, int):
+        return z3.IntVal(v)
+    if v != v or v in (math.inf, -math.inf):
+        raise Unsupported("nan/inf in a pinned run")
+    return z3.RealVal(Fraction(v))
+
+
+def _fold(pyf, a, b):
+    """pinned self-validation runs: every value is a constant, and arithmetic is done the way the library does it
+    on plain values - in IEEE doubles, operation by operation - so that the run is bit-faithful"""
+    pa, pb = _pyval(a), _pyval(b)
+    if pa is None or pb is None:
+        return None
+    return SymNum(_from_py(pyf(pa, pb)))
 
 
 def _mul(a, b):
@@ -435,49 +471,69 @@ class SymNum(float):
     def __bool__(self):
         return ENGINE.branch(self.t != 0)
 
-    def _bin(self, o, f):
+    def _bin(self, o, f, pyf=None):
         ot = lift(o)
         if ot is None:
             return NotImplemented
+        if pyf is not None and ENGINE.round_mode == "exact":
+            r = _fold(pyf, self.t, ot)
+            if r is not None:
+                return r
         a, b = _coerce(self.t, ot)
         return SymNum(f(a, b))
 
-    def _rbin(self, o, f):
+    def _rbin(self, o, f, pyf=None):
         ot = lift(o)
         if ot is None:
             return NotImplemented
+        if pyf is not None and ENGINE.round_mode == "exact":
+            r = _fold(pyf, ot, self.t)
+            if r is not None:
+                return r
         a, b = _coerce(ot, self.t)
         return SymNum(f(a, b))
 
     def __add__(self, o):
-        return self._bin(o, lambda a, b: a + b)
+        return self._bin(o, lambda a, b: a + b, operator.add)
 
     def __radd__(self, o):
-        return self._rbin(o, lambda a, b: a + b)
+        return self._rbin(o, lambda a, b: a + b, operator.add)
 
     def __sub__(self, o):
-        return self._bin(o, lambda a, b: a - b)
+        return self._bin(o, lambda a, b: a - b, operator.sub)
 
     def __rsub__(self, o):
-        return self._rbin(o, lambda a, b: a - b)
+        return self._rbin(o, lambda a, b: a - b, operator.sub)
 
     def __mul__(self, o):
-        return self._bin(o, _mul)
+        return self._bin(o, _mul, operator.mul)
 
     def __rmul__(self, o):
-        return self._rbin(o, _mul)
+        return self._rbin(o, _mul, operator.mul)
 
     def __neg__(self):
+        if ENGINE.round_mode == "exact":
+            r = _fold(lambda a, b: -a, self.t, self.t)
+            if r is not None:
+                return r
         return SymNum(-self.t)
 
     def __pos__(self):
         return self
 
     def __abs__(self):
+        if ENGINE.round_mode == "exact":
+            r = _fold(lambda a, b: abs(a), self.t, self.t)
+            if r is not None:
+                return r
         return SymNum(z3.If(self.t >= 0, self.t, -self.t))
 
     @staticmethod
     def _div(num, den):
+        if ENGINE.round_mode == "exact":
+            r = _fold(operator.truediv, num, den)   # ZeroDivisionError propagates like in the library
+            if r is not None:
+                return r
         num, den = _real(num), _real(den)
         if _is_const(den):
             if _const_frac(den) == 0:
@@ -509,6 +565,10 @@ class SymNum(float):
 
     def __floordiv__(self, o):
         ot = lift(o)
+        if ot is not None and ENGINE.round_mode == "exact":
+            r = _fold(operator.floordiv, self.t, ot)
+            if r is not None:
+                return r
         if ot is None or not _is_const(ot):
             raise Unsupported("floor division by a symbolic value")
         c = _const_frac(ot)
@@ -520,6 +580,10 @@ class SymNum(float):
 
     def __mod__(self, o):
         ot = lift(o)
+        if ot is not None and ENGINE.round_mode == "exact":
+            r = _fold(operator.mod, self.t, ot)
+            if r is not None:
+                return r
         if ot is None or not _is_const(ot):
             raise Unsupported("modulo by a symbolic value")
         c = _const_frac(ot)
@@ -531,6 +595,10 @@ class SymNum(float):
         return SymNum(_real(self.t) - z3.RealVal(c) * z3.ToReal(q))
 
     def __pow__(self, o):
+        if ENGINE.round_mode == "exact" and isinstance(o, (int, float)) and not isinstance(o, SymNum):
+            r = _fold(operator.pow, self.t, lift(o))
+            if r is not None:
+                return r
         if isinstance(o, int) and not isinstance(o, SymNum) and 0 <= o <= 8:
             r = z3.RealVal(1)
             for _ in range(o):
@@ -581,6 +649,10 @@ class SymNum(float):
     def __round__(self, nd=None):
         if nd is None:
             raise Unsupported("round to int")
+        if ENGINE.round_mode == "exact":
+            r = _fold(lambda a, b: round(a, nd) if isinstance(a, float) else a, self.t, self.t)
+            if r is not None:
+                return r
         return SymNum(ENGINE.rnd(_real(self.t), nd))
 
 
@@ -643,10 +715,8 @@ def sym_sqrt(x):
     if ENGINE.round_mode == "exact":
         t = z3.simplify(t)
         if _is_const(t):
-            fr = _const_frac(t)
-            if fr < 0:
-                raise ValueError("math domain error")
-            return SymNum(z3.RealVal(Fraction(math.sqrt(fr))))
+            pv = _pyval(t)
+            return SymNum(_from_py(math.sqrt(pv)))   # raises ValueError on a negative argument, as math.sqrt does
     if ENGINE.sqrt_mode == "assume":
         ENGINE.note("sqrt arguments are assumed non-negative (domain errors are C09's obligation)")
         ENGINE.assume(t >= 0)
